@@ -124,7 +124,7 @@ fn variant(kind: Kind, rng: &mut Rng) -> Params {
 }
 
 fn run_scalar(ctx: &Ctx) -> Report {
-    let njobs = ctx.pick(640, 6400);
+    let njobs = ctx.pick(6400, 96000);
     let seed = ctx.seed;
     let maxlen = ctx.pick(6000usize, 30000usize);
     let jobs: Vec<usize> = (0..njobs).collect();
@@ -169,7 +169,7 @@ fn run_scalar(ctx: &Ctx) -> Report {
 }
 
 fn run_bars(ctx: &Ctx) -> Report {
-    let njobs = ctx.pick(640, 6400);
+    let njobs = ctx.pick(6400, 96000);
     let seed = ctx.seed;
     let maxlen = ctx.pick(5000usize, 20000usize);
     let jobs: Vec<usize> = (0..njobs).collect();
